@@ -7,6 +7,17 @@ whose neighbours differ only in bits a float cannot hold, floats equal to such i
 written as `fractions.Fraction` or `decimal.Decimal` that no float represents.  Fraction and Decimal do not compare with
 each other in Python, so a history uses one of the two families only.  A registry that stored or compared an
 approximation of the priority (float(p), int(p), round) is seen as a wrong order or a wrong priority in a slice.
+
+Items: the model is abstract in the items (integers).  On the real class an item number k is an `Item(k)` object, or - in
+"string item" histories (about 30 %) - a plain `str` (op RS, same model request as R): the first six item strings are a
+permutation of the NAMES, so that a name used later (register / deregister / get_index_for_name / `in` / lookup by name)
+regularly EQUALS THE VALUE of a registered item without being a registered name, and vice versa.  For a `str` the
+documented meaning of `in` is membership by NAME, so the by-item membership read of such an item is generated as CN.
+
+Iterators: IB takes `iter(registry)` and keeps it OPEN while later operations (edits, sorting reads) run; IS k advances
+it k steps, IE (or the next IB / the end of the history) drains it.  What the iterator yields in total must be the view
+at the moment it was taken: the model request for IB is a plain I, for IS / IE it is L (`len`), and the real-side
+observation of IB is filled in when the iterator has been drained.
 """
 from decimal import Decimal
 from fractions import Fraction
@@ -48,21 +59,41 @@ class Item:
     def __hash__(self): return hash(self.n)
 
 
+def item_str(perm, k):
+    """the string that stands for item number k in a string-item history (injective in k)"""
+    return perm[k - 1] if k <= len(perm) else 'i%d' % k
+
+
 def gen_history(rng, maxlen=40, names=NAMES, prios=PRIOS):
     ops = []
     k = rng.randint(1, maxlen)
     item = 0
     if prios is PRIOS and rng.random() < 0.4: prios = wide_prios(rng)
+    perm = None
+    if rng.random() < 0.3:                   # string items: item k is the str item_str(perm, k) (all k, or the odd ones only)
+        perm = list(NAMES); rng.shuffle(perm)
+        odd_only = rng.random() < 0.4
+        is_str = (lambda j: j % 2 == 1) if odd_only else (lambda j: True)
+        pool = list(names) + ['i7', 'i8']
+    live = rng.random() < 0.45               # histories with iterators kept open across other operations
     for _ in range(k):
         r = rng.random()
         if r < 0.40:
             item += 1
-            ops.append(('R', item if rng.random() < 0.8 else rng.randint(1, max(1, item)), rng.choice(names), rng.choice(prios)))
+            it = item if rng.random() < 0.8 else rng.randint(1, max(1, item))
+            if perm is not None and is_str(it): ops.append(('RS', it, rng.choice(names), rng.choice(prios), item_str(perm, it)))
+            else: ops.append(('R', it, rng.choice(names), rng.choice(prios)))
         elif r < 0.52: ops.append(('D', rng.choice(names), rng.random() < 0.6))
-        elif r < 0.62: ops.append(('I',))
+        elif r < 0.62:
+            if not live or r < 0.545: ops.append(('I',))
+            elif r < 0.585: ops.append(('IB',))
+            elif r < 0.61: ops.append(('IS', rng.randint(1, 3)))
+            else: ops.append(('IE',))
         elif r < 0.67: ops.append(('L',))
-        elif r < 0.73: ops.append(('CN', rng.choice(names)))
-        elif r < 0.78: ops.append(('CI', rng.randint(1, max(1, item))))
+        elif r < 0.73: ops.append(('CN', rng.choice(names if perm is None else pool)))
+        elif r < 0.78:
+            it = rng.randint(1, max(1, item))
+            ops.append(('CN', item_str(perm, it)) if perm is not None and is_str(it) else ('CI', it))
         elif r < 0.85: ops.append(('GI', rng.randint(-8, 8)))
         elif r < 0.90: ops.append(('GN', rng.choice(names)))
         elif r < 0.96:
@@ -74,46 +105,132 @@ def gen_history(rng, maxlen=40, names=NAMES, prios=PRIOS):
 
 def enc_op(op):
     k = op[0]
-    if k == 'R': return 'R:%d:%s:%d' % (op[1], op[2], prio2(op[3]))
+    if k in ('R', 'RS'): return 'R:%d:%s:%d' % (op[1], op[2], prio2(op[3]))
+    if k == 'IB': return 'I'
+    if k in ('IS', 'IE'): return 'L'
     if k == 'D': return 'D:%s:%d' % (op[1], 1 if op[2] else 0)
     if k in 'IL' and len(op) == 1: return k
     if k == 'GS': return 'GS:' + ':'.join('N' if x is None else str(x) for x in op[1:])
     return '%s:%s' % (k, op[1])
 
 
+def enc_real(op):
+    """rendering of an operation that keeps what the real side needs (string item, iterator operations); `dec_real` reads it back"""
+    k = op[0]
+    if k == 'RS': return 'RS:%d:%s:%d:%s' % (op[1], op[2], prio2(op[3]), op[4])
+    if k == 'IB' or k == 'IE': return k
+    if k == 'IS': return 'IS:%d' % op[1]
+    return enc_op(op)
+
+
+def dec_real(s):
+    f = s.split(':')
+    k = f[0]
+
+    def oi(x): return None if x == 'N' else int(x)
+
+    def pr(x):
+        v = Fraction(int(x), 2)
+        return int(v) if v.denominator == 1 else v
+    if k == 'R': return ('R', int(f[1]), f[2], pr(f[3]))
+    if k == 'RS': return ('RS', int(f[1]), f[2], pr(f[3]), f[4])
+    if k == 'D': return ('D', f[1], f[2] == '1')
+    if k in ('I', 'L', 'IB', 'IE'): return (k,)
+    if k == 'GS': return ('GS', oi(f[1]), oi(f[2]), oi(f[3]))
+    if k in ('CI', 'GI', 'IS'): return (k, int(f[1]))
+    return (k, f[1])
+
+
 def run_real(ops):
     """observations of the real Registry in the driver's rendering"""
     r = U.Registry()
     obs = []
-    prio = {}
+    back = {}                 # string item -> item number
+    live = []                 # at most one open iterator: [iterator, index of its observation, items yielded so far]
+
+    def num(x): return x.n if isinstance(x, Item) else back[x]
+
+    def step(cnt):
+        it, at, got = live[0]
+        while cnt is None or cnt > 0:
+            try: got.append(num(next(it)))
+            except StopIteration:
+                cnt = None; break
+            if cnt is not None: cnt -= 1
+        if cnt is None:
+            obs[at] = 'items:' + ','.join(str(x) for x in got); del live[:]
+
     for op in ops:
         k = op[0]
         try:
             if k == 'R':
                 r.register(Item(op[1]), op[2], op[3]); o = 'u'
+            elif k == 'RS':
+                back[op[4]] = op[1]
+                r.register(op[4], op[2], op[3]); o = 'u'
+            elif k == 'IB':
+                if live: step(None)
+                live.append([iter(r), len(obs), []]); o = 'items:?'
+            elif k in ('IS', 'IE'):
+                if live: step(op[1] if k == 'IS' else None)
+                o = 'n:%d' % len(r)
             elif k == 'D':
                 r.deregister(op[1], strict=op[2]); o = 'u'
-            elif k == 'I': o = 'items:' + ','.join(str(x.n) for x in r)
+            elif k == 'I': o = 'items:' + ','.join(str(num(x)) for x in r)
             elif k == 'L': o = 'n:%d' % len(r)
             elif k == 'CN': o = 'b:%d' % (op[1] in r)
             elif k == 'CI': o = 'b:%d' % (Item(op[1]) in r)
-            elif k == 'GI': o = 'it:%d' % r[op[1]].n
-            elif k == 'GN': o = 'it:%d' % r[op[1]].n
+            elif k == 'GI': o = 'it:%d' % num(r[op[1]])
+            elif k == 'GN': o = 'it:%d' % num(r[op[1]])
             elif k == 'GS':
                 s = r[slice(op[1], op[2], op[3])]
                 s._sort()
-                o = 'sl:' + ','.join('%s/%d/%d' % (p.name, prio2(p.priority), s[p.name].n) for p in s._priority)
+                o = 'sl:' + ','.join('%s/%d/%d' % (p.name, prio2(p.priority), num(s[p.name])) for p in s._priority)
             elif k == 'IX': o = 'n:%d' % r.get_index_for_name(op[1])
         except ValueError: o = 'e:V'
         except KeyError: o = 'e:K'
         except IndexError: o = 'e:I'
         obs.append(o)
+    if live:
+        try: step(None)
+        except (ValueError, KeyError, IndexError, RuntimeError) as e: obs[live[0][1]] = 'items:!' + type(e).__name__
     return '|'.join(obs)
 
 
 CLOSE_PAIRS = [(B53, B53 + 1), (B53 + 1, B53 + 2), (-B53 - 1, -B53), (B64, B64 + 1), (T20, T20 + 1), (B63 - 1, B63), (float(B53), B53 + 1), (-B53 - 1, float(-B53)),
                (B53, Fraction(2 * B53 + 1, 2)), (Fraction(2 * B53 + 1, 2), B53 + 1), (Decimal(B53), Decimal('9007199254740992.5')), (Decimal(B53), Decimal(B53 + 1)),
                (Fraction(-2 * B53 - 1, 2), -B53), (0.5, 1), (-1, -0.5)]
+
+
+def string_item_histories():
+    """deterministic: a name that equals the VALUE of a registered string item but is not a registered name, used by each
+    operation that takes a name; and the converse (a registered name equal to no item).  Fully observed."""
+    obs = [('I',), ('L',), ('CN', 'a'), ('CN', 'b'), ('CN', 'c'), ('IX', 'a'), ('IX', 'b'), ('GS', None, None, None)]
+    out = []
+    for pa, pb in ((20, 10), (10, 20), (1, 1)):
+        base = [('RS', 1, 'a', pa, 'b'), ('RS', 2, 'c', pb, 'd')]           # items 'b', 'd' under the names 'a', 'c'
+        for nm in ('b', 'd', 'a', 'e'):
+            out.append(base + [('RS', 3, nm, 15, 'x')] + obs)                 # register under a name equal to an item value
+            out.append(base + [('R', 3, nm, 15)] + obs)
+            out.append(base + [('IX', nm), ('D', nm, False), ('D', nm, True), ('GN', nm), ('CN', nm)] + obs)
+        out.append([('RS', 1, 'a', pa, 'a'), ('RS', 2, 'b', pb, 'a2'), ('RS', 3, 'a2', 5, 'b')] + obs + [('D', 'a', True)] + obs)
+    return out
+
+
+def live_iterator_histories():
+    """deterministic: an iterator taken over c@20 a@40 d@-10 b@30.5-like registries, then one edit (+ optionally a sorting
+    read) while it is open at each position, then drained"""
+    base = [('R', 1, 'c', 2), ('R', 2, 'a', 4), ('R', 3, 'd', -1), ('R', 4, 'b', 2.5)]
+    edits = [[('D', n, True)] for n in 'abcd'] + [[('R', 5, 'z', p)] for p in (10, 2.5, -2)] + [[('R', 5, 'c', 10)], [('R', 5, 'a', -2)],
+             [('D', 'a', True), ('D', 'c', True)]]
+    reads = [[], [('GI', 0)], [('IX', 'd')], [('L',)], [('I',)]]
+    out = []
+    for pos in range(0, 5):
+        for e in edits:
+            for rd in reads:
+                out.append(base + [('IB',)] + ([('IS', pos)] if pos else []) + e + rd + [('IE',), ('I',)])
+    out.append(base + [('IB',), ('IS', 1), ('IB',), ('D', 'a', True), ('IS', 1), ('D', 'b', True), ('IE',), ('I',)])
+    return out
 
 
 def close_pair_histories():
@@ -129,16 +246,39 @@ def close_pair_histories():
 
 def is_wide(ops):
     """some registered priority is beyond float-exact range or not a float/int at all"""
-    return any(o[0] == 'R' and (not isinstance(o[3], (int, float)) or abs(o[3]) > B53) for o in ops)
+    return any(o[0] in ('R', 'RS') and (not isinstance(o[3], (int, float)) or abs(o[3]) > B53) for o in ops)
+
+
+def name_hits_item_value(ops):
+    """some operation names a string that is at that moment the value of a registered item but not a registered name"""
+    reg = {}
+    for o in ops:
+        if o[0] in ('R', 'RS', 'D', 'IX', 'CN', 'GN'):
+            nm = o[2] if o[0] in ('R', 'RS') else o[1]
+            if nm not in reg and nm in reg.values(): return True
+        if o[0] == 'RS': reg[o[2]] = o[4]
+        elif o[0] == 'R': reg[o[2]] = None
+        elif o[0] == 'D': reg.pop(o[1], None)
+    return False
+
+
+def edits_under_iterator(ops):
+    """an edit happens while an iterator is open"""
+    open_ = False
+    for o in ops:
+        if o[0] == 'IB': open_ = True
+        elif o[0] == 'IE': open_ = False
+        elif open_ and o[0] in ('R', 'RS', 'D'): return True
+    return False
 
 
 def nontrivial(ops):
-    regs = [o for o in ops if o[0] == 'R']
+    regs = [o for o in ops if o[0] in ('R', 'RS')]
     return len(regs) >= 2 and any(o[0] not in 'RD' for o in ops)
 
 
 def run(driver, rng, n, op='reg.run'):
-    hist = [gen_history(rng) for _ in range(n)] + close_pair_histories()
+    hist = [gen_history(rng) for _ in range(n)] + close_pair_histories() + string_item_histories() + live_iterator_histories()
     reqs = [(op,) + tuple(enc_op(o) for o in h) for h in hist]
     ans = driver.ask_many(reqs)
     dis = []; seen = set(); dist = {}
@@ -147,8 +287,11 @@ def run(driver, rng, n, op='reg.run'):
         for o in h: dist[o[0]] = dist.get(o[0], 0) + 1
         if nontrivial(h): seen.add(tuple(h))
         if real != a:
-            dis.append({'op': op, 'input': [enc_op(o) for o in h], 'model': a, 'impl': real})
+            dis.append({'op': op, 'input': [enc_real(o) for o in h], 'request': [enc_op(o) for o in h], 'model': a, 'impl': real})
     dist['err_obs'] = sum(a.count('e:') for a in ans)
     dist['wide_priority_histories'] = sum(1 for h in hist if is_wide(h))
+    dist['string_item_histories'] = sum(1 for h in hist if any(o[0] == 'RS' for o in h))
+    dist['name_equals_unregistered_item_value'] = sum(1 for h in hist if name_hits_item_value(h))
+    dist['open_iterator_histories'] = sum(1 for h in hist if edits_under_iterator(h))
     return {'cases': len(hist), 'distinct': len(seen), 'disagreements': dis,
             'samples': [{'history': [enc_op(o) for o in hist[0]], 'observations': ans[0]}], 'dist': dist}
